@@ -32,7 +32,7 @@ def floors(tier):
 def generate(ctx):
     n = ctx.budget(9000, 1280000)
     for _ in range(n):
-        regime = ctx.rng.choice(["typical", "wide", "mismatch", "equal_size", "equal_size", "identical", "tiny_sigma", "huge_sigma"])
+        regime = ctx.rng.choice(["round_numbers", "typical", "wide", "mismatch", "equal_size", "equal_size", "identical", "tiny_sigma", "huge_sigma"])
         # base scale moderate so that f in 1e-3..1e3 stays inside the six decades the property speaks about
         cfg = gen.gen_cfg(ctx.rng, scale=1.0)
         case, meta = gen.gen_case(ctx.rng, cfg=cfg, regime=regime)
